@@ -27,6 +27,12 @@ import (
 // Scripted is a request type whose validation result is chosen by the body.
 type Scripted struct {
 	Mode string `json:"mode"`
+	// optional fields: their zero value validates, so a body that does not decode must not reach validation
+	N    int      `json:"n"`
+	Tags []string `json:"tags"`
+	Sub  struct {
+		X int `json:"x"`
+	} `json:"sub"`
 }
 
 func scriptedErr(mode string, ctx context.Context) error {
